@@ -222,6 +222,14 @@ func scenario(oc opCase) sched.Scenario {
 									r, err := f(d)
 									resps, errs = append(resps, r), append(errs, err)
 								}
+								// canaries: option-less requests after the one under test carry nothing of it
+								for _, f := range []func(*netconf.Driver) (*response.NetconfResponse, error){
+									func(d *netconf.Driver) (*response.NetconfResponse, error) { return d.GetConfig("candidate") },
+									func(d *netconf.Driver) (*response.NetconfResponse, error) { return d.Get("") },
+								} {
+									r, err := f(d)
+									resps, errs = append(resps, r), append(errs, err)
+								}
 							})
 							e.OnFinish(func() {
 								vio := func(sig, format string, a ...interface{}) {
@@ -249,9 +257,19 @@ func scenario(oc opCase) sched.Scenario {
 									vio("c03:stream-not-strictly-framed", "%v", err)
 									return
 								}
-								if len(msgs) != 3 {
-									vio("c03:message-count", "decoded %d messages for 3 requests", len(msgs))
+								if len(msgs) != 5 {
+									vio("c03:message-count", "decoded %d messages for 5 requests", len(msgs))
 									return
+								}
+								for ci, body := range []string{`<get-config><source><candidate/></source></get-config>`, `<get></get>`} {
+									wantDoc := `<rpc xmlns="` + dev.NSBase + `" message-id="` + strconv.Itoa(104+ci) + `">` + body + `</rpc>`
+									got, e1 := cm.ParseXML(resps[3+ci].Input)
+									want, e2 := cm.ParseXML([]byte(wantDoc))
+									if e1 != nil || e2 != nil {
+										vio("c03:canary-not-well-formed", "%v %v: %q", e1, e2, trunc(resps[3+ci].Input))
+									} else if d := cm.DiffXML(got, want, ""); d != "" {
+										vio("c03:later-request-carries-foreign-content", "option-less request %d after the request under test: %s\n got  %q\n want %q", 3+ci, d, trunc(resps[3+ci].Input), wantDoc)
+									}
 								}
 								for i, m := range msgs {
 									r := resps[i]
@@ -346,7 +364,7 @@ func TestCheck(t *testing.T) {
 	sched.Main(t, sched.Check{
 		ID:    "C03",
 		Level: "exploration",
-		Rule: "exhaustive product: operation (get, get-config, edit-config, copy/delete-config, lock/unlock, validate, 5 commit variants, discard, raw rpc) x argument alphabet (3 datastores, 13 XML payloads incl. multi-byte, 5000-byte, attributes/namespaces, empty-element spellings (several per document, with inner whitespace), entities, percent signs; 2 xpath strings; 5 defaults modes) x {1.0,1.1} x {self-closing on,off} x {header on,off} x position 1..3 in a session; each cell is one session on the real driver over the server model; " +
+		Rule: "exhaustive product: operation (get, get-config, edit-config, copy/delete-config, lock/unlock, validate, 5 commit variants, discard, raw rpc) x argument alphabet (3 datastores, 13 XML payloads incl. multi-byte, 5000-byte, attributes/namespaces, empty-element spellings (several per document, with inner whitespace), entities, percent signs; 2 xpath strings; 5 defaults modes) x {1.0,1.1} x {self-closing on,off} x {header on,off} x position 1..3 in a session (followed by two option-less canary requests that must carry nothing of it); each cell is one session on the real driver over the server model; " +
 			"oracle: strict RFC 6242 / end-of-message stream decoder over the bytes the server received, byte equality with Response.Input/FramedInput, encoding/xml tree equality with an independently written RFC 6241 template, option-independence comparisons across cells; distinct = distinct (operation case, cell, position)",
 		Assumptions: []string{"whitespace-only text equals no text (what forcing self-closing tags may change)", "0 schedule deviations: the property has no schedule dimension"},
 		Scenarios:   scenarios,
